@@ -569,6 +569,122 @@ pub mod simdsign {
     }
 }
 
+// ---------------------------------------------------------------- R-SHRINK / R-REMAINDER
+pub mod shrink {
+    pub struct Bits {
+        pub blocks: Vec<u64>,
+        pub len: usize,
+    }
+    pub struct BadBits {
+        pub blocks: Vec<u64>,
+        pub len: usize,
+    }
+    impl Bits {
+        pub fn pop(&mut self) -> Option<bool> {
+            if self.len == 0 {
+                return None;
+            }
+            self.len -= 1;
+            let (b, i) = (self.len / 64, self.len % 64);
+            let v = (self.blocks[b] >> i) & 1 == 1;
+            self.blocks[b] &= !(1u64 << i);
+            Some(v)
+        }
+    }
+    impl BadBits {
+        pub fn pop(&mut self) -> Option<bool> {
+            if self.len == 0 {
+                return None;
+            }
+            self.len -= 1;
+            let (b, i) = (self.len / 64, self.len % 64);
+            Some((self.blocks[b] >> i) & 1 == 1)
+        }
+    }
+    pub fn ok_max(values: &[u64], n: usize) -> u64 {
+        let it = values.chunks_exact(n);
+        let rem = it.remainder();
+        let mut m = 0;
+        for c in it {
+            for &v in c {
+                m = m.max(v);
+            }
+        }
+        for &v in rem {
+            m = m.max(v);
+        }
+        m
+    }
+    pub fn bad_max(values: &[u64], n: usize) -> u64 {
+        let mut m = 0;
+        for c in values.chunks_exact(n) {
+            for &v in c {
+                m = m.max(v);
+            }
+        }
+        m
+    }
+}
+
+// ---------------------------------------------------------------- R-WRAP
+pub mod wrap {
+    pub struct Ring {
+        pub buf: Vec<u32>,
+        pub head: usize,
+        pub tail: usize,
+        pub mask: usize,
+        pub len: usize,
+    }
+    impl Ring {
+        pub fn ok_bulk(&mut self, items: &[u32]) {
+            for &x in items {
+                self.buf[self.tail] = x;
+                self.tail = (self.tail + 1) & self.mask;
+                self.len += 1;
+            }
+        }
+    }
+    pub struct BadRing {
+        pub buf: Vec<u32>,
+        pub head: usize,
+        pub tail: usize,
+        pub mask: usize,
+        pub len: usize,
+    }
+    impl BadRing {
+        pub fn bad_bulk(&mut self, items: &[u32]) {
+            for (i, &x) in items.iter().enumerate() {
+                self.buf[self.tail + i] = x;
+                self.len += 1;
+            }
+            self.tail += items.len();
+        }
+    }
+}
+
+// ---------------------------------------------------------------- R-EMPTYRANGE
+pub mod emptyrange {
+    pub struct V {
+        pub items: Vec<Option<String>>,
+        pub len: usize,
+    }
+    impl V {
+        pub fn ok_shrink(&mut self, new_len: usize) {
+            let old_len = self.len;
+            self.len = new_len;
+            for i in new_len..old_len {
+                self.items[i] = None;
+            }
+        }
+        pub fn bad_shrink(&mut self, new_len: usize) {
+            self.len = new_len;
+            for i in new_len..self.len {
+                self.items[i] = None;
+            }
+        }
+    }
+}
+
 // ---------------------------------------------------------------- R-VARIANT
 pub mod variant {
     pub enum Storage {
